@@ -7,7 +7,7 @@
 //   - a call with a message argument and an error result (SendMsg / Send, also through the library's interfaces) takes
 //     the message iff it returns nil:       ite (seq (drop m) (setf err true)) (setf err false)
 //   - a call returning (*Message, error) or *Message yields a reference iff the message is non-nil (err == nil):
-//                                           seq (fresh m) (ite (seq (gain m) (setf err true)) (setf err false))
+//     seq (fresh m) (ite (seq (gain m) (setf err true)) (setf err false))
 //   - a library function with a message parameter and no error result either consumes it (its body gives the
 //     reference up somewhere) or borrows it; the callee is checked against the class the call sites assume.
 //
@@ -71,11 +71,11 @@ func ite(a, b *IR) *IR {
 	}
 	return &IR{Op: "ite", A: a, B: b}
 }
-func op(o string, v int) *IR        { return &IR{Op: o, V: v} }
-func setf(v int, b bool) *IR        { return &IR{Op: "setf", V: v, Bv: b} }
-func test(v int, b bool) *IR        { return &IR{Op: "test", V: v, Bv: b} }
-func ret(k int) *IR                 { return &IR{Op: "ret", L: k} }
-func havoc(v int) *IR               { return ite(setf(v, true), setf(v, false)) }
+func op(o string, v int) *IR         { return &IR{Op: o, V: v} }
+func setf(v int, b bool) *IR         { return &IR{Op: "setf", V: v, Bv: b} }
+func test(v int, b bool) *IR         { return &IR{Op: "test", V: v, Bv: b} }
+func ret(k int) *IR                  { return &IR{Op: "ret", L: k} }
+func havoc(v int) *IR                { return ite(setf(v, true), setf(v, false)) }
 func lbl(o string, l int, a *IR) *IR { return &IR{Op: o, L: l, A: a} }
 
 func b2s(b bool) string {
@@ -341,18 +341,18 @@ var repoDir string
 var allNamed []*types.Named
 
 type tr struct {
-	pkg     *packages.Package
-	f       *fn
-	vars    map[types.Object]int
-	nlabel  int
-	breakT  []int
-	contT   []int
-	labels  map[string][2]int
-	pend    string
-	results *types.Tuple
-	deferred []int                 // `defer m.Free()` at the top level of the body: released at every return
+	pkg      *packages.Package
+	f        *fn
+	vars     map[types.Object]int
+	nlabel   int
+	breakT   []int
+	contT    []int
+	labels   map[string][2]int
+	pend     string
+	results  *types.Tuple
+	deferred []int // `defer m.Free()` at the top level of the body: released at every return
 	top      *ast.BlockStmt
-	wraps   map[types.Object][]int // local struct values built around tracked messages (`entry := recvQEntry{m: m, p: p}`)
+	wraps    map[types.Object][]int // local struct values built around tracked messages (`entry := recvQEntry{m: m, p: p}`)
 }
 
 func relPkg(path string) string {
